@@ -79,7 +79,16 @@ func (c *r1ctx) rootClass(site ssa.CallInstruction) sinkClass {
 		}
 		return 0
 	}
-	if cc.StaticCallee() != nil {
+	if sc := cc.StaticCallee(); sc != nil {
+		// io.Copy(dst, src) with a library type as dst drives dst.Write - the parsers' push interface - and
+		// hands back whatever that Write returned: the visitor's error enters here
+		if funcPkgPath(sc) == "io" && sc.Name() == "Copy" && len(cc.Args) == 2 {
+			if mi, ok := cc.Args[0].(*ssa.MakeInterface); ok {
+				if n := namedOf(mi.X.Type()); n != nil && n.Obj().Pkg() != nil && strings.HasPrefix(n.Obj().Pkg().Path(), core.ModPath) {
+					return clsVisitor
+				}
+			}
+		}
 		return 0
 	}
 	if _, isB := cc.Value.(*ssa.Builtin); isB {
@@ -422,11 +431,96 @@ func (k *r1client) Return(s r1state, ret *ssa.Return) {
 }
 
 // R1 runs the rule.
+// deferMask: a deferred closure that assigns the enclosing function's named
+// error result must not do so where that result may already hold an error:
+// every store to the captured result is behind a test that it is nil.
+type dfState struct{ knownNil bool }
+type dfClient struct {
+	fv  *ssa.FreeVar
+	bad token.Pos
+}
+
+func (k *dfClient) Key(s dfState) string                              { return fmt.Sprint(s.knownNil) }
+func (k *dfClient) Phis(s dfState, _ *ssa.BasicBlock, _ int) dfState { return s }
+func (k *dfClient) Return(dfState, *ssa.Return)                      {}
+func (k *dfClient) Instr(s dfState, in ssa.Instruction) (dfState, bool, []dfState) {
+	if st, ok := in.(*ssa.Store); ok && st.Addr == ssa.Value(k.fv) {
+		if !s.knownNil && !isNilConst(st.Val) {
+			k.bad = st.Pos()
+		}
+		s.knownNil = isNilConst(st.Val)
+	}
+	return s, true, nil
+}
+func (k *dfClient) Branch(s dfState, cond ssa.Value, outcome bool) (dfState, bool) {
+	if x, trueMeansNil, ok := nilTest(cond); ok {
+		if ld, ok := x.(*ssa.UnOp); ok && ld.Op == token.MUL && ld.X == ssa.Value(k.fv) {
+			s.knownNil = outcome == trueMeansNil
+		}
+	}
+	return s, true
+}
+
+func deferMask(p *core.Prog, r *core.Result, c *r1ctx) {
+	n := 0
+	for _, f := range p.ModFuncs() {
+		if !c.inScope(f) || c.S[f] == 0 {
+			continue
+		}
+		for _, b := range f.Blocks {
+			for _, in := range b.Instrs {
+				d, ok := in.(*ssa.Defer)
+				if !ok {
+					continue
+				}
+				mc, ok := d.Common().Value.(*ssa.MakeClosure)
+				if !ok {
+					continue
+				}
+				cl := mc.Fn.(*ssa.Function)
+				for i, bind := range mc.Bindings {
+					a, ok := bind.(*ssa.Alloc)
+					if !ok || !isErrorType(a.Type().Underlying().(*types.Pointer).Elem()) {
+						continue
+					}
+					// is it the named result? (returned through a load of this alloc)
+					isResult := false
+					for _, b2 := range f.Blocks {
+						for _, i2 := range b2.Instrs {
+							if ret, ok := i2.(*ssa.Return); ok {
+								for _, rv := range ret.Results {
+									if ld, ok := rv.(*ssa.UnOp); ok && ld.Op == token.MUL && ld.X == ssa.Value(a) {
+										isResult = true
+									}
+								}
+							}
+						}
+					}
+					if !isResult || i >= len(cl.FreeVars) {
+						continue
+					}
+					n++
+					k := &dfClient{fv: cl.FreeVars[i]}
+					WalkPaths[dfState](k, cl.Blocks[0], 0, dfState{}, 100000, nil)
+					fkey := core.FuncKey(f)
+					if k.bad.IsValid() {
+						r.Fail(".DEFER-MASK", fkey+"|defer", p.Pos(k.bad), fkey+": a deferred function assigns the named error result at "+p.Pos(k.bad)+" without testing that it is nil: the error of the visitor / folder that the function was about to return is replaced", "")
+					} else {
+						r.Ok(".DEFER-MASK", p.Pos(d.Pos()), fkey+": the deferred function only assigns the error result where it is nil")
+					}
+				}
+			}
+		}
+	}
+	r.Stats["deferred_result_writers"] = n
+}
+
 func R1(p *core.Prog) *core.Result {
 	r := core.NewResult("R1", "every error entering the library from an io.Writer, a Visitor event, a Folder or a fold/user function value is bound, returned on every path on which it is non-nil, and (visitor class) followed by no further event; (writer class) every event that wrote anything reports a failure when the writer keeps failing")
 	c := &r1ctx{p: p, scope: map[string]bool{"structform": true, "json": true, "cborl": true, "ubjson": true, "gotype": true, "visitors": true}}
 	c.computeS()
 	r.Stats["sink_set_functions"] = len(c.S)
+	deferMask(p, r, c)
 
 	perPkg := map[string]int{}
 	nStates := 0
